@@ -54,9 +54,11 @@ def dispatcher(name, lst, event, extra_ensures=(), extra_inv=(), extra_mods=()):
         # C07: whatever a rule callback raises, only BadPluginError leaves the dispatcher
         raises=[Raises("BadPluginError")] + ([Raises("OSError", when="context_map or context.in_fix_mode"),
                                              Raises("AssertionError", when="context_map or context.in_fix_mode")] if name != "next_token" else []),
-        modifies=["$rule_state", "context._PluginScanContext__reported.$list", "_PluginScanContext__current_fix_line",
-                  "_PluginScanContext__last_line_fixed", "$llen", "$litems", "$ddom", "$dval", "$dlen",
-                  "trace.$list"] + list(extra_mods),
+        modifies=["$rule_state", "context._PluginScanContext__reported.$list", "trace.$list"] + list(extra_mods),
+        # fix mode: the contexts of context_map, their fix maps / records / current line, the output file
+        cmodifies=[("context_map or context.in_fix_mode",
+                    ["_PluginScanContext__current_fix_line", "_PluginScanContext__last_line_fixed", "line_number",
+                     "$llen", "$litems", "$ddom", "$dval", "$dlen"])],
         calls={"context.file_output.write": FILE_WRITE},
         loops={0: Loop(index="idx", invariant=[
             f"implies({scan}, not context_map)",
@@ -66,6 +68,9 @@ def dispatcher(name, lst, event, extra_ensures=(), extra_inv=(), extra_mods=()):
             f"implies({scan}, {KEEP})",
             f"implies({scan}, context.current_fix_line is None and {sep})",
             f"implies({scan}, len({L}) == old(len({L})))", f"implies({scan}, forall(lambda j: {L}[j] == old({L})[j], 0, len({L})))",
+            f"implies({scan}, same_except('$list', old(context)._PluginScanContext__reported) and same_except('$dict') "
+            f"and same_except('_PluginScanContext__current_fix_line') and same_except('_PluginScanContext__last_line_fixed') "
+            f"and same_except('line_number', old(context)))",
         ] + list(extra_inv))},
     ))
 
@@ -75,8 +80,8 @@ dispatcher("next_line", "__enabled_plugins_for_next_line", "('line', L[j].plugin
            extra_ensures=["implies(old(not context_map) and not old(context).in_fix_mode, context.line_number == line_number)"],
            extra_inv=["implies(old(not context_map) and not old(context).in_fix_mode, line is old(line))",
                       "implies(old(not context_map) and not old(context).in_fix_mode, context.line_number == line_number)"],
-           extra_mods=["line_number"])
+           extra_mods=["context.line_number"])
 dispatcher("completed_file", "__enabled_plugins_for_completed_file", "('done', L[j].plugin_instance, context, line_number)",
            extra_ensures=["implies(old(not context_map) and not old(context).in_fix_mode, context.line_number == line_number)"],
            extra_inv=["implies(old(not context_map) and not old(context).in_fix_mode, context.line_number == line_number)"],
-           extra_mods=["line_number"])
+           extra_mods=["context.line_number"])
